@@ -236,6 +236,11 @@ func inferFun(f *FunTy, args []*Type) *FunTy {
 	if targ2 == nil || targ2.Kind != kTuple {
 		return nil
 	}
+	// 实例化后的形参必须与实参类型相等 (⊥ 只与自身相等), 否则该重载不匹配, 应继续尝试下一个重载,
+	// 而不是选中之后再在 typeAssert 中失败 (e.g. f::list[a]->num, f::a->str, 调用 f([][0]))
+	if !Equals(targ2, targ) {
+		return nil
+	}
 
 	// 5. 替换得到返回类型
 	// 返回值必须是具体类型
